@@ -721,6 +721,37 @@ fn check_api(shape: &[usize]) -> Result<(), String> {
     if m.get_mut(vec![0usize; d + 1]).is_some() || (d > 0 && m.get_mut(vec![0usize; d - 1]).is_some()) {
         return Err("get_mut accepts an index of the wrong length".into());
     }
+    // an axis that does not exist: no view, an iterator that yields nothing and says so (its length
+    // asked before and after the first next()), never a panic - also on the array without axes
+    let mut subjects: Vec<Array<f64>> = vec![a.clone()];
+    if d == 1 {
+        subjects.push(a.sum(Axis(0)));
+        subjects.push(Array::from_element(4.5, Vec::<usize>::new()));
+    }
+    for arr in subjects {
+        let dd = arr.dimensions();
+        for k in [dd, dd + 1, dd + 7, usize::MAX] {
+            for pos in [0usize, 1, usize::MAX] {
+                let a6 = arr.clone();
+                match catch(move || a6.get_axis(Axis(k), pos).is_some()) {
+                    Ok(false) => {}
+                    other => return Err(format!("get_axis(Axis({k}), {pos}) on an array with {dd} axes: {other:?}, expected None")),
+                }
+            }
+            let a7 = arr.clone();
+            let r = catch(move || {
+                let mut it = a7.iter_axis(Axis(k));
+                let before = (it.len(), it.size_hint());
+                let first = it.next().is_some();
+                let after = (it.len(), it.size_hint());
+                (before, first, after, it.count())
+            });
+            match r {
+                Ok(((0, (0, Some(0))), false, (0, (0, Some(0))), 0)) => {}
+                other => return Err(format!("iter_axis(Axis({k})) on an array with {dd} axes: (len and size_hint before, first item, len and size_hint after, count) = {other:?}, expected an empty iterator that reports length 0")),
+            }
+        }
+    }
     // sums of arrays with negative, infinite and NaN entries are what adding the views by hand gives
     let odd_values = [-2.5f64, 3.0, f64::NEG_INFINITY, -0.0, 1.0, f64::NAN, -7.0, 2.0];
     let tiny_values = [1e-16f64, 1e-20, 5e-324, 1e-300, 2.5e-16, 0.0, 1e-17];
